@@ -13,13 +13,14 @@ use std::cmp::Ordering;
 
 const FINDING: &str = "letter-weight-ascii";
 
-const POOL: [&str; 20] = [
+const POOL: [&str; 27] = [
     "p-1", "p-1.0", "p-1_0", "p-1.00", "p-1.0nb1", "p-2rc1", "p-2", "p-10", "q-1", "q-2", "q-0",
-    "r-5", "p", "pq-3", "p-1.0a", "p-1.0.5", "p-a-2", "p-b-1", "p-b-2", "p-1nb2",
+    "r-5", "p", "pq-3", "p-1.0a", "p-1.0.5", "p-a-2", "p-b-1", "p-b-2", "p-1nb2", "p+-2", "p-0a-2",
+    "p-1pre1", "p-1pl1", "p-2.99999999999999999999", "p-2.rc1", "p-2.beta3",
 ];
 
-const PATTERNS: [&str; 9] = [
-    "p>=1", "p>1<2", "p-[0-9]*", "{p,q}-[0-9]*", "{p,q}>=1", "*", "p-1", "q<1", "p-*-[0-9]*",
+const PATTERNS: [&str; 10] = [
+    "p>=1", "p>1<2", "p-[0-9]*", "{p,q}-[0-9]*", "{p,q}>=1", "*", "p-1", "q<1", "p-*-[0-9]*", "p*-[0-9]*",
 ];
 
 fn version_of(name: &str) -> &str {
@@ -196,8 +197,8 @@ fn main() {
         run.finish_replay(replay(&run, doc), replay(&run, doc));
     }
     run.rule(
-        "9 patterns (dewey, two-bound, glob, brace+glob, brace+dewey, '*', plain, upper bound) x a \
-         20-name pool (same base with tied spellings 1/1.0/1_0/1.00, revisions, rc, a second and \
+        "10 patterns (dewey, two-bound, glob, brace+glob, brace+dewey, '*', plain, upper bound) x a \
+         27-name pool (same base with tied spellings 1/1.0/1_0/1.00, revisions, rc, a second and \
          third base, a name without '-', a letter version): every ordered pair (None iff neither \
          matches; result is one of the two and matches; symmetric; equals the model winner), and \
          every candidate list of <= N names with repetition in every order x every binary \
@@ -205,7 +206,7 @@ fn main() {
          routes must give the model winner. Non-trivial = at least two distinct matching candidates.",
     );
     run.assume("reference order: dewey model + byte-wise smaller name on ties (mc/core/src/model/dewey.rs); pattern membership by the composed pattern model");
-    let n = run.pick(4, 5);
+    let n = run.pick(3, 4);
     run.bound(format!("all {} lists of <= {} candidates x all reduction trees, x {} patterns; all {} ordered pairs per pattern", seqs::count(POOL.len(), n), n, PATTERNS.len(), POOL.len() * POOL.len()));
 
     let pats: Vec<(String, Pattern)> = PATTERNS
